@@ -9,7 +9,13 @@ git -C /repo worktree add -q $wt HEAD || exit 2
 fail=0
 for d in seeded/${ONLY:-}*/; do
   id=$(basename $d | cut -c1-3)
-  git -C $wt checkout -q -- . && git -C $wt apply "$PWD/${d}patch.diff" || { echo "$d: patch does not apply"; fail=1; continue; }
+  git -C $wt checkout -q -- . && git -C $wt checkout -q --detach $(git -C /repo rev-parse HEAD)
+  if ! git -C $wt apply "$PWD/${d}patch.diff" 2>/dev/null; then
+    # a later repair touched the same lines: fall back to the commit the change was written against (meta.json: base_commit)
+    base=$(python3 -c "import json;print(json.load(open('${d}meta.json')).get('base_commit',''))")
+    { [ -n "$base" ] && git -C $wt checkout -q --detach $base && git -C $wt apply "$PWD/${d}patch.diff"; } || { echo "$d: patch does not apply"; fail=1; continue; }
+    echo "$(basename $d): applied to its base commit $base (does not apply to HEAD)"
+  fi
   for s in ${SEEDS:-0}; do
     out=$(SMG_REPO=$wt VERIF_SEED=$s ./check $id $tier 2>&1); rc=$?
     echo "$(basename $d): $id $tier seed=$s rc=$rc $(echo "$out" | grep -E '^(VIOLATION|INCONCLUSIVE|HELD)' | head -1 | cut -c1-160)"
